@@ -1,7 +1,8 @@
 // Command c03 executes C03 / C13 / C14 scenarios against the real ratelimit, collections and
 // connlimit packages (exported API + the repo's frozen clock).
 //
-//	cfg rate <p:a:b[,p:a:b…]> cap=<n>|cap=default [solo=1]      TokenLimiter (cap=default: no Capacity option) (solo=1: plus one private limiter per source)
+//	cfg rate <p:a:b[,p:a:b…]> cap=<n>|cap=default [solo=1] [ext=clientip]   TokenLimiter (cap=default: no Capacity option) (solo=1: plus one private limiter per source)
+//	      ext=clientip: the stock utils.NewExtractor("client.ip"); <src> of an op is the request's RemoteAddr verbatim, every request costs 1
 //	  at <ns> req <src> <amount> [rates=<…>] [evict=<src>]   -> 200 | 429 <delay_ns> | 500   [solo=<…>]
 //	  retry [extra=<ns>]                                      -> <resp> t=<ns> | noretry
 //	  at <ns> preq <src> <amount> <n> <goroutines> [rates=<…>] -> 200=<a> 429=<b> 500=<c>
@@ -125,10 +126,20 @@ var (
 	interned = map[string]*ratelimit.RateSet{}
 )
 
+// clientIPMode (`cfg rate … ext=clientip`): the limiters of the scenario use the stock utils.NewExtractor("client.ip");
+// the <src> field of an op is then the request's RemoteAddr, verbatim, and every request costs one token.
+var clientIPMode bool
+
 func newLimiter(rates string, capacity int, opts ...ratelimit.TokenLimiterOption) (*ratelimit.TokenLimiter, error) {
 	rs, err := parseRates(rates)
 	if err != nil {
 		return nil, err
+	}
+	var ext utils.SourceExtractor = extractor
+	if clientIPMode {
+		if ext, err = utils.NewExtractor("client.ip"); err != nil {
+			return nil, err
+		}
 	}
 	// the extractor hands out one shared *RateSet per distinct rates= text of the scenario (the way a
 	// per-plan configuration would), for every source and every limiter of the scenario
@@ -151,13 +162,16 @@ func newLimiter(rates string, capacity int, opts ...ratelimit.TokenLimiterOption
 		opts = append(opts, ratelimit.Capacity(capacity))
 	}
 	opts = append(opts, ratelimit.ExtractRates(extractRates))
-	return ratelimit.New(okHandler, extractor, rs, opts...)
+	return ratelimit.New(okHandler, ext, rs, opts...)
 }
 
 func serve(tl http.Handler, src, amount, rates string) (string, int64) {
 	req := httptest.NewRequest(http.MethodGet, "http://h/", nil)
 	req.Header.Set("X-Src", src)
 	req.Header.Set("X-Amount", amount)
+	if clientIPMode {
+		req.RemoteAddr = src
+	}
 	if rates != "" {
 		req.Header.Set("X-Rates", rates)
 	}
@@ -170,6 +184,9 @@ func newReq(src, amount, rates string) *http.Request {
 	req := httptest.NewRequest(http.MethodGet, "http://h/", nil)
 	req.Header.Set("X-Src", src)
 	req.Header.Set("X-Amount", amount)
+	if clientIPMode {
+		req.RemoteAddr = src
+	}
 	if rates != "" {
 		req.Header.Set("X-Rates", rates)
 	}
@@ -564,6 +581,8 @@ func main() {
 					return nil, "err badcap" // ratelimit.Capacity rejects it
 				}
 			}
+			ev, _ := hx.KV(cfg, "ext")
+			clientIPMode = ev == "clientip"
 			pk := &parker{entered: make(chan struct{}), release: make(chan struct{})}
 			tl, err := newLimiter(cfg[2], capacity, ratelimit.ErrorHandler(pk))
 			if err != nil {
